@@ -83,6 +83,9 @@ pub struct ChainState {
     pub blobs: BTreeSet<BlobId>,
     pub txs: BTreeSet<TxId>,
     pub height: u32,
+    /// When set: the snapshot the persistent-storage view still shows to the pool
+    /// (the view lags behind the block import). The fields above are the truth.
+    pub lag: Option<Box<ChainState>>,
 }
 
 #[derive(Clone, Default)]
@@ -92,6 +95,28 @@ impl ChainView {
     pub fn with<T>(&self, f: impl FnOnce(&mut ChainState) -> T) -> T {
         let mut g = self.0.lock().unwrap_or_else(|e| e.into_inner());
         f(&mut g)
+    }
+
+    /// what the pool can see through the port (possibly a lagging snapshot)
+    fn seen<T>(&self, f: impl FnOnce(&ChainState) -> T) -> T {
+        let g = self.0.lock().unwrap_or_else(|e| e.into_inner());
+        f(g.lag.as_deref().unwrap_or(&g))
+    }
+
+    pub fn visible(&self) -> ChainState {
+        self.seen(|c| {
+            let mut v = c.clone();
+            v.lag = None;
+            v
+        })
+    }
+
+    pub fn truth(&self) -> ChainState {
+        self.with(|c| {
+            let mut v = c.clone();
+            v.lag = None;
+            v
+        })
     }
 }
 
@@ -105,23 +130,23 @@ fn compressed(c: &CoinFields) -> CompressedCoin {
 
 impl TxPoolPersistentStorage for ChainView {
     fn contains_tx(&self, tx_id: &TxId) -> StorageResult<bool> {
-        Ok(self.with(|c| c.txs.contains(tx_id)))
+        Ok(self.seen(|c| c.txs.contains(tx_id)))
     }
 
     fn utxo(&self, utxo_id: &UtxoId) -> StorageResult<Option<CompressedCoin>> {
-        Ok(self.with(|c| c.coins.get(utxo_id).map(compressed)))
+        Ok(self.seen(|c| c.coins.get(utxo_id).map(compressed)))
     }
 
     fn contract_exist(&self, contract_id: &ContractId) -> StorageResult<bool> {
-        Ok(self.with(|c| c.contracts.contains(contract_id)))
+        Ok(self.seen(|c| c.contracts.contains(contract_id)))
     }
 
     fn blob_exist(&self, blob_id: &BlobId) -> StorageResult<bool> {
-        Ok(self.with(|c| c.blobs.contains(blob_id)))
+        Ok(self.seen(|c| c.blobs.contains(blob_id)))
     }
 
     fn message(&self, nonce: &Nonce) -> StorageResult<Option<Message>> {
-        Ok(self.with(|c| {
+        Ok(self.seen(|c| {
             c.messages.get(nonce).map(|m| {
                 MessageV1 {
                     sender: m.sender,
@@ -146,7 +171,7 @@ impl StorageInspect<BlobData> for ChainView {
         &self,
         key: &<BlobData as Mappable>::Key,
     ) -> Result<Option<Cow<'_, <BlobData as Mappable>::OwnedValue>>, Self::Error> {
-        Ok(self.with(|c| {
+        Ok(self.seen(|c| {
             c.blobs
                 .contains(key)
                 .then(|| Cow::Owned(BlobBytes::from(vec![0u8; 8])))
@@ -154,7 +179,7 @@ impl StorageInspect<BlobData> for ChainView {
     }
 
     fn contains_key(&self, key: &<BlobData as Mappable>::Key) -> Result<bool, Self::Error> {
-        Ok(self.with(|c| c.blobs.contains(key)))
+        Ok(self.seen(|c| c.blobs.contains(key)))
     }
 }
 
@@ -163,7 +188,7 @@ impl StorageSize<BlobData> for ChainView {
         &self,
         key: &<BlobData as Mappable>::Key,
     ) -> Result<Option<usize>, Self::Error> {
-        Ok(self.with(|c| c.blobs.contains(key).then_some(8)))
+        Ok(self.seen(|c| c.blobs.contains(key).then_some(8)))
     }
 }
 
@@ -174,7 +199,7 @@ impl StorageRead<BlobData> for ChainView {
         _offset: usize,
         buf: &mut [u8],
     ) -> Result<core::result::Result<usize, StorageReadError>, ()> {
-        if !self.with(|c| c.blobs.contains(key)) {
+        if !self.seen(|c| c.blobs.contains(key)) {
             return Ok(Err(StorageReadError::KeyNotFound));
         }
         buf.fill(0);
@@ -187,7 +212,7 @@ impl StorageRead<BlobData> for ChainView {
         _offset: usize,
         buf: &mut [u8],
     ) -> Result<core::result::Result<usize, StorageReadError>, ()> {
-        if !self.with(|c| c.blobs.contains(key)) {
+        if !self.seen(|c| c.blobs.contains(key)) {
             return Ok(Err(StorageReadError::KeyNotFound));
         }
         buf.fill(0);
@@ -198,7 +223,7 @@ impl StorageRead<BlobData> for ChainView {
         &self,
         key: &<BlobData as Mappable>::Key,
     ) -> Result<Option<Vec<u8>>, Self::Error> {
-        Ok(self.with(|c| c.blobs.contains(key).then(|| vec![0u8; 8])))
+        Ok(self.seen(|c| c.blobs.contains(key).then(|| vec![0u8; 8])))
     }
 }
 
